@@ -439,6 +439,43 @@ def random_mem(c, n, first_tr):
     return scns
 
 
+def single_field_reloads(c, scns):
+    """post-pass over the memory-adaptive scenarios (own random stream: the scenarios above stay what they were): in every
+    second scenario one reload is inserted whose rule differs from the rule in force in exactly ONE field (high water mark,
+    low water mark or high-memory threshold) - a reload must not take such a rule for unchanged - followed by probes at both
+    water marks of the new rule and half-way between them"""
+    import random
+    rng = random.Random(c.seed * 7919 + 11)
+    for s in scns:
+        if rng.random() < 0.5 or len(s) < 3:
+            continue
+        at = rng.randint(2, len(s) - 1)
+        cur = dict(s[0])
+        for o in s[1:at]:
+            if o['op'] == 'reload':
+                cur.update(low=o['low'], high=o['high'], lw=o['lw'], hw=o['hw'])
+        low, high, lw, hw = cur['low'], cur['high'], cur['lw'], cur['hw']
+        f = rng.choice(['hw', 'hw', 'hw', 'lw', 'high'])
+        if f == 'hw':
+            hw = rng.choice([h for h in (lw + 1, lw + 2, lw + 7, lw + 100, (lw + hw) // 2, 2 * hw, hw + 1000) if h > lw and h != hw])
+        elif f == 'lw' and hw - lw >= 2:
+            lw = rng.choice([v for v in (lw + 1, (lw + hw) // 2, hw - 1) if v != lw])
+        elif high + 1 < low:
+            high += 1
+        elif high > 1:
+            high -= 1
+        else:
+            hw += 1
+        r = dict(op='reload', low=low, high=high, lw=lw, hw=hw)
+        if s[0].get('cb'):
+            r.update(cb=1, q=s[0]['q'])
+        if rng.random() < 0.5:
+            r['via'] = 'res'
+        ins = [r] + [dict(op='probe', mem=m, n=low + 2) for m in (hw, lw, (lw + hw) // 2, hw + 1)]
+        s[at:at] = ins
+    return scns
+
+
 # ----------------------------------------------------------------------------- S3 + S4
 def run_and_validate(c, drv, scns, tag, module):
     sp = os.path.join(c.scratch, tag + '.scn.ndjson')
@@ -853,7 +890,7 @@ def check(c, tier, replay):
     rand_scns += random_warmup(c, nrand, tr + 1)
     tr += nrand
     nmem = 400 if not thorough else 6500           # (30 % throttling rules)
-    mem_scns = random_mem(c, nmem, tr + 1)
+    mem_scns = single_field_reloads(c, random_mem(c, nmem, tr + 1))
     tr += nmem
     # S3 + S4 ----------------------------------------------------------------------------
     seen_lead_keys = set()
